@@ -1403,7 +1403,7 @@ func (ex *Exec) anchorSite(an *Anchored) (token.Pos, bool) {
 // afterStore runs `after store NAME[k]:` anchored clauses (k-th statement `NAME[...] = v` in the
 // source of the function under verification).
 func (ex *Exec) afterStore(st *State, id *ast.Ident) {
-	if st.frame.fi != ex.top || st.frame.closure != nil || ex.top.Spec == nil || len(ex.top.Spec.Anchors) == 0 {
+	if st.frame.fi != ex.top || (st.frame.closure != nil && !ex.closureTop) || ex.top.Spec == nil || len(ex.top.Spec.Anchors) == 0 {
 		return
 	}
 	has := false
@@ -1434,7 +1434,7 @@ func (ex *Exec) afterStore(st *State, id *ast.Ident) {
 // afterAssign runs `after assign NAME[k]:` anchored clauses (k-th assignment to NAME in the source
 // of the function under verification).
 func (ex *Exec) afterAssign(st *State, id *ast.Ident) {
-	if st.frame.fi != ex.top || st.frame.closure != nil || ex.top.Spec == nil || len(ex.top.Spec.Anchors) == 0 {
+	if st.frame.fi != ex.top || (st.frame.closure != nil && !ex.closureTop) || ex.top.Spec == nil || len(ex.top.Spec.Anchors) == 0 {
 		return
 	}
 	has := false
